@@ -57,6 +57,8 @@ def fmt_case(c):
         lines.append("freeze %d %d" % tuple(c["freeze"]))
     if c.get("elem"):
         lines.append("elem %s" % c["elem"])
+    if c.get("chunkstyle"):
+        lines.append("chunkstyle %s" % c["chunkstyle"])
     if c.get("c0") is not None:
         lines.append("c0 %d" % c["c0"])
     if c.get("multi"):
@@ -339,8 +341,13 @@ def stream(prop, seed, n, mode="wrapping"):
         elif prop == "C07":
             c = gen_conc(r, cid, WITH_SKIP, kinds=[("iter", 1)], mode=mode)
         elif prop in ("C08", "C15"):
-            c = gen_conc(r, cid, WITH_SKIP if r.chance(1, 2) else PULLS, kinds=[("vec", 3), ("array", 3), ("iter", 2)],
-                         mode=mode, owning_only=True)
+            if r.chance(1, 6):
+                # closures that panic while they own an element
+                c = gen_conc(r, cid, dict(next=2, chunk=2, buf=2, loop=2, loopcrash=4), kinds=[("vec", 3), ("array", 3), ("iter", 2)],
+                             mode=mode, owning_only=True, crash=r.chance(1, 3))
+            else:
+                c = gen_conc(r, cid, WITH_SKIP if r.chance(1, 2) else PULLS, kinds=[("vec", 3), ("array", 3), ("iter", 2)],
+                             mode=mode, owning_only=True)
         elif prop == "C09":
             c = gen_conc(r, cid, WITH_SKIP, mode=mode)
         elif prop == "C10":
